@@ -231,9 +231,9 @@ def run(ctx):
     # ---- separate Card instances share nothing (identity of containers)
     from skops.card import Card
 
-    from ..card import StubModel
+    from sklearn.linear_model import LinearRegression
 
-    c1, c2 = Card(StubModel()), Card(StubModel())
+    c1, c2 = Card(LinearRegression()), Card(LinearRegression())
     shared = [k for k in vars(c1) if isinstance(vars(c1)[k], (dict, list, set)) and vars(c1)[k] is vars(c2).get(k)]
     if shared:
         ofails.append((f"cards-share-state: two Card instances hold the very same container in {shared}", dict(kind="calls", mode="cards")))
